@@ -26,8 +26,8 @@ import (
 
 type urlDecl struct {
 	scheme, host, hostname, path, rawquery, fragment *Term
-	hostLit, portPart *Term // host == hostLit ++ portPart when known (declared URLs)
-	synth             bool  // produced by (*URL).String() of a structured URL (scheme already lower-case)
+	hostLit, portPart                                *Term // host == hostLit ++ portPart when known (declared URLs)
+	synth                                            bool  // produced by (*URL).String() of a structured URL (scheme already lower-case)
 }
 
 // strEq is Go's string equality with one structural short cut: two declared structured URLs
@@ -280,7 +280,8 @@ func (m *Machine) optPart(prefix string, t *Term) *Term {
 
 // structuredString is (*URL).String() for a URL whose components are over the safe alphabets
 // (no user info, no opaque part, path empty or starting with "/"):
-//   [scheme ":"] ["//" if (scheme≠"" ∨ host≠"") ∧ (host≠"" ∨ path≠"")] host path ["?" rawquery] ["#" fragment]
+//
+//	[scheme ":"] ["//" if (scheme≠"" ∨ host≠"") ∧ (host≠"" ∨ path≠"")] host path ["?" rawquery] ["#" fragment]
 func (m *Machine) structuredString(f [5]*Term) *Term {
 	slashes := mkIte(mkAnd(mkOr(m.nonEmptyT(f[0]), m.nonEmptyT(f[1])), mkOr(m.nonEmptyT(f[1]), m.nonEmptyT(f[2]))), mkStr("//"), mkStr(""))
 	var sch *Term
